@@ -232,7 +232,7 @@ def run(ctx):
     kname = loop.target.id
     params = [a.arg for a in pncbo.args.args]
     f1, f2 = params[1], params[2]
-    coord_paths, arith_paths = [], []
+    coord_paths, arith_paths, other_paths = [], [], []
     for pth in _paths.enumerate_paths(loop.body):
         res = _paths.expand(pth)
         if not res.feasible or pth.exit[0] == 'raise':
@@ -242,6 +242,8 @@ def run(ctx):
             coord_paths.append((pth, res))
         elif has_eval:
             arith_paths.append((pth, res))
+        else:
+            other_paths.append((pth, res))
     if not coord_paths:
         ctx.violation(Finding('R-COORDPASS', FUNCS, q, loop, 'coordinate variables are not copied unchanged from the left operand (no path of the loop body is taken for `%s in coordkeys`)' % kname))
     else:
@@ -258,6 +260,29 @@ def run(ctx):
             ctx.ok('R-COORDPASS', 'pncbo coordinate branch', where, 'coordinate keys copy the left operand variable, no arithmetic (%d paths)' % len(coord_paths))
         else:
             ctx.violation(Finding('R-COORDPASS', FUNCS, q, (bad.stmts or [loop])[-1], 'coordinate variables are not copied unchanged from the left operand'))
+    # R-PASSONLY: besides the coordinate keys, a variable is passed through only when the right operand does not have it
+    ctx.rule('R-PASSONLY', 'pncbo: a non-coordinate variable is copied instead of computed only when the right operand lacks it')
+    badp = None
+    npass = 0
+    for pth, res in other_paths:
+        copies = [c for st, new in res.stmts for c in walk_expr(new) if isinstance(c, ast.Call) and ((dotted(c.func) or '').endswith('.copyVariable') or (dotted(c.func) or '').endswith('.createVariable'))]
+        if not copies:
+            continue
+        npass += 1
+        lacks = False
+        for e_, x, pol in res.conds:
+            t_ = norm(x)
+            if isinstance(x, ast.Compare) and len(x.ops) == 1 and norm(x.left) == kname and (f2 + '.variables') in norm(x.comparators[0]):
+                if (isinstance(x.ops[0], ast.NotIn) and pol) or (isinstance(x.ops[0], ast.In) and not pol):
+                    lacks = True
+        if not lacks:
+            why = [norm(x)[:50] + (' is %s' % pol) for e_, x, pol in res.conds if kname not in norm(x) or 'coordkeys' not in norm(x)]
+            badp = badp or (pth, copies[0], why[-1] if why else '?')
+    if badp is not None:
+        ctx.violation(Finding('R-PASSONLY', FUNCS, q, api_stmt(badp[1]), 'a variable that both operands have and that is not a coordinate is copied from the left operand instead of being computed '
+                              '(when %s): its values in the result are those of the left file whatever the operator' % badp[2]))
+    else:
+        ctx.ok('R-PASSONLY', 'pncbo pass-through', where, '%d copying paths besides the coordinate branch, all for a variable the right operand lacks' % npass)
     if not arith_paths:
         raise AnalysisError('construct not understood: pncbo no longer evaluates "a op b" with eval')
     # every arithmetic path must satisfy every obligation: the first failing path is reported, ok only when all paths agree
@@ -482,6 +507,62 @@ def run(ctx):
     else:
         ctx.violation(Finding('R-COORDKEYS', FILES, 'PseudoNetCDFFile._copywith', cw.body[-1], 'the copy does not receive the coordinate keys of the receiver on every path: results of file arithmetic / '
                               'mask() lose them and the next operation computes on the coordinate variables'))
+    # ---------------- R-MASKDEFPARSE: the string form 'type,arg[,arg]' keeps every argument (finite case analysis of the parse)
+    from .. import consteval as _cev
+    ctx.rule('R-MASKDEFPARSE', "mask_vals: 'type,a,b' is split into the type and the complete argument text 'a,b'")
+    mvf = ctx.src.mod(FUNCS).func('mask_vals')
+    wmv = 'src/PseudoNetCDF/%s mask_vals' % FUNCS
+    par_ = [a.arg for a in mvf.args.args][1]
+    head = []
+    for st in mvf.body:
+        if isinstance(st, ast.Expr) and isinstance(st.value, ast.Constant):
+            continue
+        if isinstance(st, ast.Assign):
+            head.append(st)
+        else:
+            break
+    # which names hold the type and the arguments: the type is compared with 'where', the other feeds the expression template
+    tname = None
+    for n_ in ast.walk(mvf):
+        if isinstance(n_, ast.Compare) and isinstance(n_.left, ast.Name) and n_.comparators and const_str(n_.comparators[0]) == 'where':
+            tname = n_.left.id
+    aname = None
+    for n_ in ast.walk(mvf):
+        if isinstance(n_, ast.BinOp) and isinstance(n_.op, ast.Mod) and const_str(n_.left) and 'masked_%s' in const_str(n_.left) and isinstance(n_.right, ast.Tuple) and len(n_.right.elts) == 2 \
+                and isinstance(n_.right.elts[1], ast.Name):
+            aname = n_.right.elts[1].id
+    if tname is None or aname is None or not head:
+        ctx.undec('R-MASKDEFPARSE', 'parse', wmv, 'type / argument names of the parse not identified')
+    else:
+        wrong = unk = None
+        for text, want in (('greater,5', ('greater', '5')), ('inside,1,2', ('inside', '1,2')), ('values,2.5,0.001', ('values', '2.5,0.001')), ('invalid', ('invalid', '')), ('outside,-1e3,1e3', ('outside', '-1e3,1e3'))):
+            env = {par_: text}
+            for st in head:
+                v_ = _cev.ev(st.value, env)
+                tg = st.targets[0]
+                if isinstance(tg, ast.Name):
+                    env[tg.id] = v_
+                elif isinstance(tg, ast.Tuple) and v_ is not _cev.UNK and isinstance(v_, (list, tuple)) and len(v_) == len(tg.elts):
+                    for t_, x_ in zip(tg.elts, v_):
+                        if isinstance(t_, ast.Name):
+                            env[t_.id] = x_
+                else:
+                    for t_ in (tg.elts if isinstance(tg, ast.Tuple) else []):
+                        if isinstance(t_, ast.Name):
+                            env[t_.id] = _cev.UNK
+            got = (env.get(tname, _cev.UNK), env.get(aname, _cev.UNK))
+            if _cev.UNK in got:
+                unk = text
+            elif got != want:
+                wrong = (text, got, want)
+                break
+        if wrong:
+            ctx.violation(Finding('R-MASKDEFPARSE', FUNCS, 'mask_vals', head[-1], 'the definition %r is parsed as type %r with arguments %r (expected %r): the later arguments are dropped, numpy.ma.masked_%s is '
+                                  'called with too few arguments, the error is swallowed as a warning and nothing is masked' % (wrong[0], wrong[1][0], wrong[1][1], wrong[2][1], wrong[1][0])))
+        elif unk:
+            ctx.undec('R-MASKDEFPARSE', 'parse', wmv, 'parse outside the evaluated fragment for %r' % unk)
+        else:
+            ctx.ok('R-MASKDEFPARSE', 'parse', wmv, '5 definitions (0, 1, 2 arguments) split into type and complete argument text')
     # ---------------- R-WHEREAPPLY: which variables a positional mask applies to (finite case analysis of the condition)
     from .. import consteval
     ctx.rule('R-WHEREAPPLY', 'mask(where=): applied to a variable iff the mask is tied to exactly its dimensions, or is untied and has exactly its shape')
